@@ -8,9 +8,6 @@
      (enum strings such as "result", "cancel")
    - attributes: the NAME is concrete (slot of the DOM model stays concrete), PRESENCE and value are symbolic
    - children are appended at concrete indices; vp_dom_truncate makes the child COUNT symbolic */
-#ifndef C02_VLEN
-#define C02_VLEN 4
-#endif
 void vp_c02_pick(char *out, char *tab, uint32_t stride, uint32_t n, uint32_t idx) {
   ASSUME(idx < n); ASSERT(stride <= QS_CAP && n <= 40, "C02 env: name table too large");
   QAD *d = qs_new(0, stride); struct qs *q = (struct qs*)d;
@@ -20,18 +17,21 @@ void vp_c02_pick(char *out, char *tab, uint32_t stride, uint32_t n, uint32_t idx
   for (uint32_t k = 0; k < n; k++) { if (k == idx) { uint32_t l = 0; for (; l < stride; l++) { uint8_t c = ((uint8_t*)tab)[k * stride + l]; if (!c) break; q->data[l] = c; }
       d->f1 = l; q->lit = 1; q->exact = 1; q->sid = l <= 3 ? SID_PACK(q->data, l) : vpl_hash16(q->data, l); } }
   *(QAD**)out = d; }
-/* kind 0: free text, 1: abstract number, 2: row of the table (only if n > 0) */
+/* kind 0: free text (0..3 arbitrary units), 1: abstract number, 2: row of the table (only if n > 0).
+   Every value block carries a valid content id: <= 3 units pack injectively (SID_PACK), table rows are literals of the harness (offline
+   injectivity check); for an abstract number the id is never consulted (qt_core.c compares numbers by value before looking at ids). */
 void vp_c02_value(char *out, char *tab, uint32_t stride, uint32_t n) {
   uint8_t kind = vp_u8(); uint32_t len = vp_u32(); uint64_t mag = vp_u64(); uint8_t neg = vp_bool(); uint32_t idx = vp_u32();
-  uint16_t c0 = vp_u16(), c1 = vp_u16(), c2 = vp_u16(), c3 = vp_u16();
-  ASSUME(kind < (n > 0 ? 3 : 2)); ASSUME(len <= C02_VLEN); ASSERT(stride <= QS_CAP && n <= 40 && C02_VLEN <= 4, "C02 env: value table too large");
-  uint32_t hint = stride > C02_VLEN ? stride : C02_VLEN; if (n == 0) hint = C02_VLEN;
+  uint16_t c0 = vp_u16(), c1 = vp_u16(), c2 = vp_u16();
+  ASSUME(kind < (n > 0 ? 3 : 2)); ASSUME(len <= 3); ASSERT(stride <= QS_CAP && n <= 40, "C02 env: value table too large");
+  uint32_t hint = n > 0 && stride > 3 ? stride : 3;
   QAD *d = qs_new(len, hint); struct qs *q = (struct qs*)d;
-  SD(d)[0] = c0; SD(d)[1] = c1; SD(d)[2] = c2; SD(d)[3] = c3;
-  if (kind == 1) { d->f1 = 1; SD(d)[0] = '#'; q->isnum = 1; q->neg = neg && mag != 0; q->mag = mag; }
+  q->data[0] = c0; q->data[1] = c1; q->data[2] = c2; q->lit = 0; q->exact = 1; q->sid = SID_PACK(q->data, len);
+  if (kind == 1) { d->f1 = 1; q->data[0] = '#'; q->isnum = 1; q->neg = neg && mag != 0; q->mag = mag; }
   if (kind == 2) { ASSUME(idx < n);
-    for (uint32_t k = 0; k < n; k++) { if (k == idx) { uint32_t l = 0; for (; l < stride; l++) { uint8_t c = ((uint8_t*)tab)[k * stride + l]; if (!c) break; SD(d)[l] = c; } d->f1 = l; } } }
-  qs_seal(d, 0); *(QAD**)out = d; }
+    for (uint32_t k = 0; k < n; k++) { if (k == idx) { uint32_t l = 0; for (; l < stride; l++) { uint8_t c = ((uint8_t*)tab)[k * stride + l]; if (!c) break; q->data[l] = c; }
+        d->f1 = l; q->lit = 1; q->sid = l <= 3 ? SID_PACK(q->data, l) : vpl_hash16(q->data, l); } } }
+  *(QAD**)out = d; }
 /* fresh element; `ns` is the namespace IN EFFECT (the harness resolves inheritance, so the pointer never becomes a choice) */
 void vp_c02_new(char *out, char *tag, char *ns, char *text) { struct dnode *n = dn_new(); n->tag = qad_ref(*(QAD**)tag); n->ns = qad_ref(*(QAD**)ns); n->text = qad_ref(*(QAD**)text); DN(out) = n; }
 void vp_c02_append(char *parent, char *child) { dn_append(DN(parent), DN(child)); }
@@ -133,14 +133,23 @@ C02_SSD(40)
    the inline code (size check + QtPrivate::equalStrings of models/qt_core.c) with a fast path: a model block carrying a valid content id
    against LITERAL data (non-block pointer at the start of a constant: same criterion as VIEW_LIT of qt_core.c) compares ids; the id of the
    literal is computed in place and folds to a constant. */
-static int c02_veq(uint64_t na, const uint16_t *a, uint64_t nb, const uint16_t *b) {
-  if (na != nb) return 0;   /* abstract numbers / base64 tags are 1-unit placeholders and only equal each other */
+static int c02_lit_vs_blk(uint64_t n, const uint16_t *lit, const uint16_t *a) {   /* n > 0, lengths equal */
+  struct qs *q = QSBLK(a);
+  if (q->isnum || q->b64) return 0;   /* abstract numbers / base64 tags never equal ordinary text */
   /* `whole view` (block length == view length) is left to the solver as a model obligation: symex cannot fold it for a symbolic length
      (zero- vs sign-extended copies of the same field), and exploring the unit-by-unit fallback is exactly the cost to avoid */
-  if (!VP_IS_QS(b) && VP_LITSTART(b) && VP_IS_QS(a) && QSBLK(a)->exact) { ASSERT(QSBLK(a)->h.f1 == na, "C02 env: partial view of a literal-derived block compared");
-    return VIEW_SID(a, na) == (nb <= 3 ? SID_PACK(b, nb) : vpl_hash16(b, (uint32_t)nb)); }
-  if (!VP_IS_QS(a) && VP_LITSTART(a) && VP_IS_QS(b) && QSBLK(b)->exact) { ASSERT(QSBLK(b)->h.f1 == nb, "C02 env: partial view of a literal-derived block compared");
-    return VIEW_SID(b, nb) == (na <= 3 ? SID_PACK(a, na) : vpl_hash16(a, (uint32_t)na)); }
+  if (q->exact) { ASSERT(q->h.f1 == n, "C02 env: partial view of a block with content id compared"); return q->sid == (n <= 3 ? SID_PACK(lit, n) : vpl_hash16(lit, (uint32_t)n)); }
+  return view_eq(n, a, n, lit); }
+static int c02_veq(uint64_t na, const uint16_t *a, uint64_t nb, const uint16_t *b) {
+  if (na != nb) return 0;   /* abstract numbers / base64 tags are 1-unit placeholders and only equal each other */
+  if (na == 0) return 1;
+  if (!VP_IS_QS(b) && VP_LITSTART(b) && VP_IS_QS(a)) return c02_lit_vs_blk(nb, b, a);
+  if (!VP_IS_QS(a) && VP_LITSTART(a) && VP_IS_QS(b)) return c02_lit_vs_blk(na, a, b);
   return view_eq(na, a, nb, b); }
 uint8_t _Zeq11QStringViewS_(uint64_t na, char *a, uint64_t nb, char *b) { return c02_veq(na, (const uint16_t*)a, nb, (const uint16_t*)b); }
 uint8_t _Zne11QStringViewS_(uint64_t na, char *a, uint64_t nb, char *b) { return !c02_veq(na, (const uint16_t*)a, nb, (const uint16_t*)b); }
+/* QStringView::toString() (inline: QString(data(), size())): a view that starts at the beginning of a model block is the whole block
+   (obligation for the solver, see above): share it instead of exploring the copy loop under an unfoldable length comparison */
+void _ZNK11QStringView8toStringEv(char *ret, char *self) { uint64_t n = *(uint64_t*)self; uint16_t *p = *(uint16_t**)(self + 8);
+  if (p && VP_IS_QS(p)) { ASSERT(QSBLK(p)->h.f1 == n, "C02 env: toString() of a partial view of a model block"); *(QAD**)ret = qad_ref(&QSBLK(p)->h); return; }
+  _ZN7QStringC1EPK5QChari(ret, (char*)p, (uint32_t)n); }
